@@ -14,6 +14,7 @@ from .token import TOKEN_BARE_PROPERTY
 from .token import TOKEN_COMMA
 from .token import TOKEN_CONTAINS
 from .token import TOKEN_DDOT
+from .token import TOKEN_DDOT_PROPERTY
 from .token import TOKEN_DOT_PROPERTY
 from .token import TOKEN_DOUBLE_QUOTE_STRING
 from .token import TOKEN_EQ
@@ -105,6 +106,9 @@ class Lexer:
         # .thing
         self.dot_property_pattern = rf"\.(?P<G_PROP>{self.key_pattern})"
 
+        # ..thing
+        self.ddot_property_pattern = rf"\.\.(?P<G_DPROP>{self.key_pattern})"
+
         self.slice_list_pattern = (
             r"(?P<G_LSLICE_START>(?:\-?[0-9]+)?)\s*"
             r":\s*(?P<G_LSLICE_STOP>(?:\-?[0-9]+)?)\s*"
@@ -141,6 +145,7 @@ class Lexer:
             (TOKEN_DOT_PROPERTY, self.dot_property_pattern),
             (TOKEN_FLOAT, r"-?[0-9]+\.[0-9]*(?:[eE][+-]?[0-9]+)?"),
             (TOKEN_INT, r"-?[0-9]+(?P<G_EXP>[eE][+\-]?[0-9]+)?\b"),
+            (TOKEN_DDOT_PROPERTY, self.ddot_property_pattern),
             (TOKEN_DDOT, r"\.\."),
             (TOKEN_AND, self.logical_and_pattern),
             (TOKEN_OR, self.logical_or_pattern),
@@ -199,6 +204,17 @@ class Lexer:
                     kind=TOKEN_PROPERTY,
                     value=match.group("G_PROP"),
                     index=match.start("G_PROP"),
+                )
+            elif kind == TOKEN_DDOT_PROPERTY:
+                yield _token(
+                    kind=TOKEN_DDOT,
+                    value="..",
+                    index=match.start(),
+                )
+                yield _token(
+                    kind=TOKEN_BARE_PROPERTY,
+                    value=match.group("G_DPROP"),
+                    index=match.start("G_DPROP"),
                 )
             elif kind == TOKEN_BARE_PROPERTY:
                 yield _token(
